@@ -50,14 +50,9 @@ def suffixOk (suffix : Option Bytes) : Bool :=
   | none => true
   | some tok => tok != [] && !tok.contains 34
 
-/-! ### known-finding class -/
-
-/-- the cutset trim `strings.TrimLeft(t, "W/")` removes something else than one `W/` prefix -/
-def cutsetQuirk (t : Bytes) : Bool := trimLeft b!"W/" t != opaqueTag t
-
-/-- C09-a: the client's tag or the stored tag is one on which the cutset trim and the prefix
-    trim differ — an unquoted tag whose opaque part starts with `W` or `/` -/
-def inClass_C09_a (inm storedEtag : Bytes) : Bool :=
-  cutsetQuirk inm || cutsetQuirk storedEtag
+/- (C09-a — `normalizeEtag` was the CUTSET trim `strings.TrimLeft(t, "W/")`, so unquoted tags that
+   differ by leading `W` / `/` characters compared equal — was repaired in caching.normalizeEtag
+   (`strings.TrimPrefix`); its class predicate is gone, the clause is covered at full strength by
+   `Props.C09Get.client_304_only_if_match` and by the regression stream kf.C09-a.) -/
 
 end Spec.C09Get
